@@ -1,4 +1,5 @@
 import SigHook.Lemmas.HalfLock
+import SigHook.Model.Skel
 import SigHook.Lemmas.RegistryConcLive
 /-!
 # C18 — Registry calls always terminate when overlapping deliveries terminate
@@ -302,5 +303,15 @@ theorem C18_registry_lock_order {env : Env} {ye : Nat} {disp : List (Int × Disp
   have hI := inv6_reachable hr
   have hd := hf_crit_hd_crit hI hj hc
   exact ⟨hd, fun hi => crit_unique hI.emb.hd hi hd⟩
+
+
+/-- **C18.lock_order_source** — tie to the source (regenerated): every mutator takes `data`'s
+writer lock first; `race_fallback`'s is taken only by `register_unchecked_impl`, after it; the
+dispatcher takes no writer lock at all. -/
+theorem C18_lock_order_source :
+    (∀ fn ∈ ["register_unchecked_impl", "unregister", "unregister_signal"],
+      (skelOf regFile fn).head? = some "data.write") ∧
+    (∀ fn ∈ ["unregister", "unregister_signal", "handler"], ¬ (skelOf regFile fn).contains "fallback.write") ∧
+    ¬ (skelOf regFile "handler").contains "data.write" := by decide
 
 end SigHook.RegConc
